@@ -28,67 +28,6 @@ open Verif Verif.GoSemCap Verif.BufioxGen
 open Verif.GoSem (GM wrap LoopR IT)
 set_option linter.unusedSimpArgs false
 
-/-! ## the doubling loops of the writer -/
-
-theorem w_double_loop (O : Nat → Nat → Bytes) (n : Nat) (hn : n ≤ 2 ^ 61) (f : Nat) :
-    ∀ (m g : Nat), 0 < m → m ≤ 2 ^ 62 → n ≤ m * 2 ^ f → n ≤ m * 2 ^ g →
-      DefaultWriter_acquireSlow_loop1 O (n : Int) (f + 1) (m : Int) = .ok ((doubleUntil g m n : Nat) : Int) := by
-  induction f with
-  | zero =>
-    intro m g hm hm' hf hg
-    have : ¬ m < n := by omega
-    have e : doubleUntil g m n = m := by cases g <;> simp [doubleUntil, this]
-    have : ¬ (m : Int) < (n : Int) := by omega
-    simp [DefaultWriter_acquireSlow_loop1, this, e]
-  | succ f ih =>
-    intro m g hm hm' hf hg
-    unfold DefaultWriter_acquireSlow_loop1
-    by_cases h : m < n
-    · have hI : (m : Int) < (n : Int) := by omega
-      cases g with
-      | zero => simp at hg; omega
-      | succ g =>
-        have hw : wrap .i64 ((m : Int) * 2) = ((m * 2 : Nat) : Int) := by
-          rw [wrap_i64_id] <;> omega
-        have hf2 : n ≤ (m * 2) * 2 ^ f := by rw [Nat.pow_succ] at hf; rw [Nat.mul_assoc, Nat.mul_comm 2]; exact hf
-        have hg2 : n ≤ (m * 2) * 2 ^ g := by rw [Nat.pow_succ] at hg; rw [Nat.mul_assoc, Nat.mul_comm 2]; exact hg
-        have := ih (m * 2) g (by omega) (by omega) hf2 hg2
-        simpa [hI, hw, doubleUntil, h] using this
-    · have hI : ¬ (m : Int) < (n : Int) := by omega
-      have e : doubleUntil g m n = m := by cases g <;> simp [doubleUntil, h]
-      simp [hI, e]
-
-/-- `for ncap = c; ncap-len(w.buf) < n; ncap *= 2 {}` -/
-theorem w_grow_loop {ω : Type} (O : Nat → Nat → Bytes) (w : S_DefaultWriter ω) (n : Nat)
-    (hn : n + w.buf.len ≤ 2 ^ 61) (f : Nat) :
-    ∀ (m g : Nat), 0 < m → m ≤ 2 ^ 62 → n + w.buf.len ≤ m * 2 ^ f → n + w.buf.len ≤ m * 2 ^ g →
-      DefaultWriter_acquireSlow_loop2 O w (n : Int) (f + 1) (m : Int) = .ok ((doubleUntil g m (n + w.buf.len) : Nat) : Int) := by
-  induction f with
-  | zero =>
-    intro m g hm hm' hf hg
-    have : ¬ m < n + w.buf.len := by omega
-    have e : doubleUntil g m (n + w.buf.len) = m := by cases g <;> simp [doubleUntil, this]
-    have hw : wrap .i64 ((m : Int) - (w.buf.len : Int)) = (m : Int) - (w.buf.len : Int) := by rw [wrap_i64_id] <;> omega
-    have : ¬ (m : Int) - (w.buf.len : Int) < (n : Int) := by omega
-    simp [DefaultWriter_acquireSlow_loop2, slen, hw, this, e]
-  | succ f ih =>
-    intro m g hm hm' hf hg
-    unfold DefaultWriter_acquireSlow_loop2
-    have hw0 : wrap .i64 ((m : Int) - (w.buf.len : Int)) = (m : Int) - (w.buf.len : Int) := by rw [wrap_i64_id] <;> omega
-    by_cases h : m < n + w.buf.len
-    · have hI : (m : Int) - (w.buf.len : Int) < (n : Int) := by omega
-      cases g with
-      | zero => simp at hg; omega
-      | succ g =>
-        have hw : wrap .i64 ((m : Int) * 2) = (m : Int) * 2 := by rw [wrap_i64_id] <;> omega
-        have hf2 : n + w.buf.len ≤ (m * 2) * 2 ^ f := by rw [Nat.pow_succ] at hf; rw [Nat.mul_assoc, Nat.mul_comm 2]; exact hf
-        have hg2 : n + w.buf.len ≤ (m * 2) * 2 ^ g := by rw [Nat.pow_succ] at hg; rw [Nat.mul_assoc, Nat.mul_comm 2]; exact hg
-        have := ih (m * 2) g (by omega) (by omega) hf2 hg2
-        simpa [slen, hw0, hI, hw, doubleUntil, h] using this
-    · have hI : ¬ (m : Int) - (w.buf.len : Int) < (n : Int) := by omega
-      have e : doubleUntil g m (n + w.buf.len) = m := by cases g <;> simp [doubleUntil, h]
-      simp [slen, hw0, hI, e]
-
 /-! ## the sink, the relation -/
 
 /-- the model's scripted sink as an `io.Writer` (`dc` = the writer is a BytesWriter: its fake io.Writer never fails) -/
@@ -201,7 +140,9 @@ theorem DefaultWriter_acquireSlow_sim (a : WAlloc) (ha : ∀ c, a.poolCap c = mc
       cases hb : m.buf with
       | none => simp [(hw.nil_buf hb).1]
       | some v => exact (hw.buf_ok v hb).pend_lt
-    have e1 := maxSizeStats_maxSize_eq g.maxSizeStats hs.stats_nonneg
+    have hbl : g.maxSizeStats.buckets.length = Facts.statsBucketNum := by
+      have := congrArg List.length hs.stats; simp at this; rw [← this]; exact hw.stats_len
+    have e1 := maxSizeStats_maxSize_eq g.maxSizeStats hs.stats_nonneg hbl
     rw [← hs.stats] at e1
     have hs45 : statsMax m.stats ≤ 2 ^ 45 := statsMax_le _ _ hst
     generalize hm1 : (if statsMax m.stats < Facts.defaultBufSize then Facts.defaultBufSize else statsMax m.stats) = m1
@@ -213,7 +154,6 @@ theorem DefaultWriter_acquireSlow_sim (a : WAlloc) (ha : ∀ c, a.poolCap c = mc
       calc n ≤ 1 * 2 ^ f0 := by omega
         _ ≤ m1 * 2 ^ f0 := Nat.mul_le_mul_right _ hm1pos
     have hg1 := le_mul_two_pow n m1 hm1pos
-    have e2 := w_double_loop (fun _ c => a.fresh m.next c) n (by omega) f0 m1 n hm1pos (by omega) hf1 hg1
     have hd := doubleUntil_spec n m1 n hm1pos hg1
     generalize hm2 : doubleUntil n m1 n = m2 at *
     have hm2le : m2 ≤ 2 ^ 45 := by omega
@@ -235,7 +175,15 @@ theorem DefaultWriter_acquireSlow_sim (a : WAlloc) (ha : ∀ c, a.poolCap c = mc
       have hgM : ¬ mcacheCap m2 < n := by omega
       refine ⟨{ g with buf := ⟨a.fresh m.next (mcacheCap m2), 0, true⟩ }, _, ?_, by simp [hmdc, ha, hgM],
         alloc_wsim a g m (mcacheCap m2) hs hpl, by simpa [Wr.bufCap] using hmcle⟩
-      simp [-Out.bind_ok, bind_ok_nr, hsc, hnil, e1, hmax, e2, hdc, e3, scap, slen, length_fresh, hwA, hwA', hgA]
+      simp [-Out.bind_ok, bind_ok_nr, hsc, hnil, e1, hmax, hdc, scap, slen]
+      rw [double_bind (T := n) (f := f0) (m := m1) (g := n) (mi := (m1 : Int)) (hT := by omega) (hmi := rfl)
+        (hm := hm1pos) (hm' := by omega) (hf := hf1) (hg := hg1)]
+      rotate_left
+      · intro f c hc0 hc1
+        rw [DefaultWriter_acquireSlow_loop1]
+        arith_cases
+      rw [hm2]
+      simp [-Out.bind_ok, bind_ok_nr, hdc, e3, scap, slen, length_fresh, hwA, hwA', hgA]
     · have hmdc : m.disableCache = true := by rw [← hs.dc, hdc]
       have hwA : wrap .i64 ((m2 : Int) - 0) = (m2 : Int) := by rw [wrap_i64_id] <;> omega
       have hwA' : wrap .i64 (m2 : Int) = (m2 : Int) := by rw [wrap_i64_id] <;> omega
@@ -243,7 +191,15 @@ theorem DefaultWriter_acquireSlow_sim (a : WAlloc) (ha : ∀ c, a.poolCap c = mc
       have hgM : ¬ m2 < n := by omega
       refine ⟨{ g with buf := ⟨a.fresh m.next m2, 0, true⟩ }, _, ?_, by simp [hmdc, hgM],
         alloc_wsim a g m m2 hs hpl, by simpa [Wr.bufCap] using hm2le⟩
-      simp [-Out.bind_ok, bind_ok_nr, hsc, hnil, e1, hmax, e2, hdc, e4, scap, slen, length_fresh, hwA, hwA', hgA]
+      simp [-Out.bind_ok, bind_ok_nr, hsc, hnil, e1, hmax, hdc, scap, slen]
+      rw [double_bind (T := n) (f := f0) (m := m1) (g := n) (mi := (m1 : Int)) (hT := by omega) (hmi := rfl)
+        (hm := hm1pos) (hm' := by omega) (hf := hf1) (hg := hg1)]
+      rotate_left
+      · intro f c hc0 hc1
+        rw [DefaultWriter_acquireSlow_loop1]
+        arith_cases
+      rw [hm2]
+      simp [-Out.bind_ok, bind_ok_nr, hdc, e4, scap, slen, length_fresh, hwA, hwA', hgA]
   · -- a buffer exists
     obtain ⟨v, hb⟩ : ∃ v, m.buf = some v := by
       cases hb : m.buf with
@@ -278,9 +234,10 @@ theorem DefaultWriter_acquireSlow_sim (a : WAlloc) (ha : ∀ c, a.poolCap c = mc
         have h3 : v.cap * 2 * 2 ^ n = v.cap * 2 ^ n + v.cap * 2 ^ n := by
           rw [Nat.mul_assoc, Nat.mul_comm 2, ← Nat.mul_assoc]; omega
         omega
-      have e2 := w_grow_loop (fun _ c => a.fresh m.next c) g n (by omega) f0 (v.cap * 2) n (by omega) (by omega) hf1 hg1
-      simp only [Int.natCast_mul, Int.cast_ofNat_Int, hlen] at e2
-      have hd := doubleUntil_spec n (v.cap * 2) (n + v.len) (by omega) (by rw [← hlen]; exact hg1)
+      rw [hlen] at hf1 hg1
+      have hwc' : wrap .i64 (2 * (v.cap : Int)) = (v.cap : Int) * 2 := by rw [wrap_i64_id] <;> omega
+      have hg'' : ¬ (n : Int) ≤ ((v.cap - v.len : Nat) : Int) := by omega
+      have hd := doubleUntil_spec n (v.cap * 2) (n + v.len) (by omega) hg1
       have hgc := growCap_eq n (v.cap * 2) v.len n hnpos
       generalize hN : doubleUntil n (v.cap * 2) (n + v.len) = N at *
       have hNle : N ≤ 2 ^ 45 := by omega
@@ -298,15 +255,32 @@ theorem DefaultWriter_acquireSlow_sim (a : WAlloc) (ha : ∀ c, a.poolCap c = mc
           m.grow a v n, ?_, by simp [hg, hvc], grow_wsim a g m v n N _ hs hb hok hgc (by simp [hmdc, ha]), by
             have : mcacheCap N ≤ 2 ^ 45 := by rw [mcacheCap_eq N (by omega)]; exact pow2ceil_le45 N hNle
             simpa [Wr.bufCap, Wr.grow, Wr.allocBuf, hgc, hmdc, ha] using this⟩
-        simp [-Out.bind_ok, bind_ok_nr, hsc, hsl, hc', hvc, hw1, hg', hwc, e2, hdc, e3, hsl2 _ hNcap]
+        simp [-Out.bind_ok, bind_ok_nr, hsc, hsl, hc', hvc, hw1, hg', hg'', hwc, hwc', hdc]
+        rw [double_bind (T := n + v.len) (f := f0) (m := v.cap * 2) (g := n) (mi := (v.cap : Int) * 2) (hT := by omega)
+          (hmi := by simp) (hm := by omega) (hm' := by omega) (hf := hf1) (hg := hg1)]
+        rotate_left
+        · intro f c hc0 hc1
+          rw [DefaultWriter_acquireSlow_loop2]
+          arith_cases
+        rw [hN]
+        simp [-Out.bind_ok, bind_ok_nr, hsl, hdc, e3, hsl2 _ hNcap]
       · have hmdc : m.disableCache = true := by rw [← hs.dc, hdc]
         refine ⟨{ g with pendingBuf := appendSl g.pendingBuf g.buf, buf := ⟨a.fresh m.next N, v.len, true⟩ },
           m.grow a v n, ?_, by simp [hg, hvc], grow_wsim a g m v n N _ hs hb hok hgc (by simp [hmdc]), by
             simpa [Wr.bufCap, Wr.grow, Wr.allocBuf, hgc, hmdc] using hNle⟩
-        simp [-Out.bind_ok, bind_ok_nr, hsc, hsl, hc', hvc, hw1, hg', hwc, e2, hdc, e4, hsl2 _ (Nat.le_refl _)]
+        simp [-Out.bind_ok, bind_ok_nr, hsc, hsl, hc', hvc, hw1, hg', hg'', hwc, hwc', hdc]
+        rw [double_bind (T := n + v.len) (f := f0) (m := v.cap * 2) (g := n) (mi := (v.cap : Int) * 2) (hT := by omega)
+          (hmi := by simp) (hm := by omega) (hm' := by omega) (hf := hf1) (hg := hg1)]
+        rotate_left
+        · intro f c hc0 hc1
+          rw [DefaultWriter_acquireSlow_loop2]
+          arith_cases
+        rw [hN]
+        simp [-Out.bind_ok, bind_ok_nr, hsl, hdc, e4, hsl2 _ (Nat.le_refl _)]
     · have hg' : ¬ ((v.cap - v.len : Nat) : Int) < (n : Int) := by omega
+      have hg'' : (n : Int) ≤ ((v.cap - v.len : Nat) : Int) := by omega
       refine ⟨g, m, ?_, by simp [hg], hs, by omega⟩
-      simp [-Out.bind_ok, bind_ok_nr, hsc, hsl, hc', hvc, hw1, hg']
+      simp [-Out.bind_ok, bind_ok_nr, hsc, hsl, hc', hvc, hw1, hg', hg'']
 
 /-- `len(w.buf)`, `cap(w.buf)` are the model's -/
 theorem wsim_len_cap (g : S_DefaultWriter WSink) (m : Wr) (hs : WSim g m) (hw : WInv m) :
@@ -326,15 +300,16 @@ theorem DefaultWriter_acquire_sim (a : WAlloc) (ha : ∀ c, a.poolCap c = mcache
       m.acquire a n = some m' ∧ WSim g' m' ∧ m'.bufCap ≤ 2 ^ 45 := by
   obtain ⟨h1, h2⟩ := wsim_len_cap g m hs hw
   have hwr : wrap .i64 ((m.bufLen : Int) + (n : Int)) = (m.bufLen : Int) + (n : Int) := by rw [wrap_i64_id] <;> omega
+  have hwrc : wrap .i64 ((n : Int) + (m.bufLen : Int)) = (m.bufLen : Int) + (n : Int) := by rw [wrap_i64_id] <;> omega
   unfold DefaultWriter_acquire Wr.acquire
   by_cases hf : m.bufLen + n ≤ m.bufCap
   · have hf' : (m.bufLen : Int) + (n : Int) ≤ (m.bufCap : Int) := by omega
     have hf'' : ¬ (m.bufCap : Int) < (m.bufLen : Int) + (n : Int) := by omega
-    exact ⟨g, m, by simp [h1, h2, hwr, hf', hf''], by simp [hf], hs, by omega⟩
+    exact ⟨g, m, by simp [h1, h2, hwr, hwrc, hf', hf''], by simp [hf], hs, by omega⟩
   · have hf' : ¬ (m.bufLen : Int) + (n : Int) ≤ (m.bufCap : Int) := by omega
     have hf'' : (m.bufCap : Int) < (m.bufLen : Int) + (n : Int) := by omega
     obtain ⟨g', m', hx, hy, hs', hc'⟩ := DefaultWriter_acquireSlow_sim a ha fuel g m n hs hw hcap hreq hst hfuel
-    exact ⟨g', m', by simp [h1, h2, hwr, hf', hf'', hx], by simp [hf, hy], hs', hc'⟩
+    exact ⟨g', m', by simp [h1, h2, hwr, hwrc, hf', hf'', hx], by simp [hf, hy], hs', hc'⟩
 
 theorem mcacheCap_ge (c : Nat) : c ≤ mcacheCap c := by
   unfold mcacheCap
@@ -383,6 +358,7 @@ theorem DefaultWriter_Malloc_sim (a : WAlloc) (ha : ∀ c, a.poolCap c = mcacheC
         have hvl : v.len = m.bufLen := by have := hpost.len; simpa [Wr.bufLen, hb] using this
         have hgt : ¬ v.len + k > v.cap := by omega
         have hw1 : wrap .i64 ((v.len : Int) + (k : Int)) = (v.len : Int) + (k : Int) := by rw [wrap_i64_id] <;> omega
+        have hw1c : wrap .i64 ((k : Int) + (v.len : Int)) = (v.len : Int) + (k : Int) := by rw [wrap_i64_id] <;> omega
         have s1 : sslice g1.buf (v.len : Int) ((v.len : Int) + (k : Int)) = .ok ⟨(m1.heap v.obj).drop v.len, k, true⟩ := by
           rw [sslice_ok _ _ _ (by omega) (by omega) (by simp [scap, hgb, hhl]; omega)]
           simp [hgb]; omega
@@ -393,7 +369,7 @@ theorem DefaultWriter_Malloc_sim (a : WAlloc) (ha : ∀ c, a.poolCap c = mcacheC
         simp only [hb, hgt, if_false]
         refine ⟨{ g1 with buf := ⟨m1.heap v.obj, v.len + k, true⟩ }, ⟨(m1.heap v.obj).drop v.len, k, true⟩, ?_, rfl,
           by simp [hhl], ?_⟩
-        · simp [hge, hneg, hx, hsl, hw1, s1, s2]
+        · simp [hge, hneg, hx, hsl, hw1, hw1c, s1, s2]
         · refine ⟨by simp, ?_, hs1.pend, hs1.err, hs1.dc, hs1.stats, hs1.stats_nonneg, hs1.idx, hs1.sink⟩
           intro v' hv'; simp at hv'; subst hv'; rfl
       · -- no buffer and nothing asked for: `nil[0:0]`
@@ -416,10 +392,9 @@ theorem wb_ok (b bs : Sl) (hlen : b.len ≤ b.mem.length) (hbs : bs.len ≤ bs.m
     let k := min (b.mem.length - b.len) bs.len
     let b2 := putBack b (slen b) (copySl p bs).1
     (copySl p bs).2 = (k : Int) ∧
-    sslice b2 0 (wrap .i64 (slen b2 + (k : Int))) =
-      .ok ⟨b.mem.take b.len ++ bs.data.take k ++ b.mem.drop (b.len + k), b.len + k, b.nonnil⟩ ∧
-    sslice b2 0 (wrap .i64 (slen b + (k : Int))) =
-      .ok ⟨b.mem.take b.len ++ bs.data.take k ++ b.mem.drop (b.len + k), b.len + k, b.nonnil⟩ := by
+    -- `w.buf[:hi]` for any way of writing `hi = len(w.buf) + n`
+    (∀ hi : Int, hi = ((b.len + k : Nat) : Int) → sslice b2 0 hi =
+      .ok ⟨b.mem.take b.len ++ bs.data.take k ++ b.mem.drop (b.len + k), b.len + k, b.nonnil⟩) := by
   intro p k b2
   have hk : k ≤ b.mem.length - b.len := Nat.min_le_left _ _
   have hk2 : k ≤ bs.len := Nat.min_le_right _ _
@@ -433,13 +408,14 @@ theorem wb_ok (b bs : Sl) (hlen : b.len ≤ b.mem.length) (hbs : bs.len ≤ bs.m
     have : b.len + (k + (b.mem.length - b.len - k)) = b.mem.length := by omega
     simp [this]
     omega
-  refine ⟨rfl, ?_, ?_⟩ <;>
-  · rw [hb2]
-    simp only [slen, hw]
-    rw [sslice_ok _ _ _ (by omega) (by omega) (by
-      simp [scap, Sl.data, Nat.min_eq_left hlen, Nat.min_eq_left hk2]; omega)]
-    simp
-    omega
+  refine ⟨rfl, ?_⟩
+  intro hi hhi
+  subst hhi
+  rw [hb2]
+  rw [sslice_ok _ _ _ (by omega) (by omega) (by
+    simp [scap, Sl.data, Nat.min_eq_left hlen, Nat.min_eq_left hk2]; omega)]
+  simp
+  omega
 
 def WriteOK (x : GM (S_DefaultWriter WSink × Int × Err)) (y : Out RErr Nat × Wr) : Prop :=
   match y.1 with
@@ -476,14 +452,18 @@ theorem DefaultWriter_WriteBinary_sim (a : WAlloc) (ha : ∀ c, a.poolCap c = mc
       have hgl : g1.buf.len = v.len := by simp [hgb]
       have hk : min (g1.buf.mem.length - g1.buf.len) bs.len = bs.len := by omega
       have hk' : min (v.cap - v.len) bs.len = bs.len := by omega
-      obtain ⟨c1, c2, c3⟩ := wb_ok g1.buf bs (by have := hok.len_le_cap; omega) hbs (by omega)
+      obtain ⟨c1, c2⟩ := wb_ok g1.buf bs (by have := hok.len_le_cap; omega) hbs (by omega)
       have hsp := spare_ok g1.buf (by have := hok.len_le_cap; omega)
-      simp only [hk] at c1 c2 c3
+      simp only [hk] at c1 c2
       simp only [hb, hk']
       refine ⟨{ g1 with buf := ⟨g1.buf.mem.take g1.buf.len ++ bs.data.take bs.len ++ g1.buf.mem.drop (g1.buf.len + bs.len),
           g1.buf.len + bs.len, g1.buf.nonnil⟩ }, ?_, ?_⟩
       · have hx' : DefaultWriter_acquire (fun _ c => a.fresh m.next c) fuel g (slen bs) = .ok g1 := hx
-        simp [-Out.bind_ok, bind_ok_nr, hge, hx', hsp, c1, c2, c3]
+        simp [-Out.bind_ok, bind_ok_nr, hge, hx', hsp, c1]
+        rw [c2]
+        rotate_left
+        · simp only [slen, putBack]; rw [wrap_i64_id] <;> omega
+        simp [-Out.bind_ok, bind_ok_nr]
       · refine ⟨by simp, ?_, ?_, hs1.err, hs1.dc, hs1.stats, hs1.stats_nonneg, hs1.idx, hs1.sink⟩
         · intro v' hv'; simp at hv'; subst hv'
           simp [hwrite, hdl, hgb]
@@ -497,9 +477,6 @@ theorem DefaultWriter_WriteBinary_sim (a : WAlloc) (ha : ∀ c, a.poolCap c = mc
     · -- no buffer and nothing to write: `copy(nil[0:0], bs)`
       have hgb := hs1.buf_none hb
       have hk : min (g1.buf.mem.length - g1.buf.len) bs.len = 0 := by simp [hgb, Sl.nil]
-      obtain ⟨c1, c2, c3⟩ := wb_ok g1.buf bs (by simp [hgb, Sl.nil]) hbs (by simp [hgb, Sl.nil])
-      have hsp := spare_ok g1.buf (by simp [hgb, Sl.nil])
-      simp only [hk] at c1 c2 c3
       simp only [hb]
       have hx' : DefaultWriter_acquire (fun _ c => a.fresh m.next c) fuel g (slen bs) = .ok g1 := hx
       refine ⟨g1, ?_, hs1⟩
@@ -540,17 +517,68 @@ theorem stitch_step (b old : Sl) (off : Nat) (hlen : b.len ≤ b.mem.length) (hc
   · simp only [copySl, t2, t4]
     rw [wrap_i64_id] <;> omega
 
+/-- the type of the stitching loop of Flush: the parked slices, the variables it assigns (the receiver, `offset`) -/
+abbrev FlushLoopT := List Sl → S_DefaultWriter WSink → Int → GM (S_DefaultWriter WSink × Int)
+
+/-- one round of the stitching loop `offset += copy(w.buf[offset:], oldBuf[offset:])` in normal form: what ANY function
+    must satisfy to be that loop (shown for the generated loop function by `flush_step` at the use site) -/
+def FlushStep (L : FlushLoopT) : Prop :=
+  (∀ g off, L [] g off = .ok (g, off)) ∧
+  (∀ (p : Sl) (ps : List Sl) (g : S_DefaultWriter WSink) (off : Nat), g.buf.len ≤ g.buf.mem.length →
+    g.buf.mem.length ≤ 2 ^ 45 → off ≤ g.buf.len → p.len ≤ p.mem.length →
+    L (p :: ps) g (off : Int) =
+      if off > p.len then .panic "slice"
+      else L ps { g with buf := ⟨g.buf.mem.take off ++ (p.mem.drop off).take (min (g.buf.len - off) (p.len - off)) ++
+                                  g.buf.mem.drop (off + min (g.buf.len - off) (p.len - off)), g.buf.len, g.buf.nonnil⟩ }
+             ((off + min (g.buf.len - off) (p.len - off) : Nat) : Int))
+
+/-- a function that satisfies `FlushStep` by definition (used to speak about `stitch`'s heap without a generated name) -/
+def flushRef : FlushLoopT
+  | [], g, off => .ok (g, off)
+  | p :: ps, g, off =>
+    if off.toNat > p.len then .panic "slice"
+    else flushRef ps { g with buf := ⟨g.buf.mem.take off.toNat ++
+          (p.mem.drop off.toNat).take (min (g.buf.len - off.toNat) (p.len - off.toNat)) ++
+          g.buf.mem.drop (off.toNat + min (g.buf.len - off.toNat) (p.len - off.toNat)), g.buf.len, g.buf.nonnil⟩ }
+        ((off.toNat + min (g.buf.len - off.toNat) (p.len - off.toNat) : Nat) : Int)
+
+theorem flushRef_step : FlushStep flushRef :=
+  ⟨fun _ _ => rfl, fun p ps g off _ _ _ _ => by rw [flushRef]; simp⟩
+
+/-- proves `FlushStep (the generated stitching loop)` -/
+macro "flush_step" : tactic => `(tactic| (
+  refine ⟨fun g off => by rw [DefaultWriter_Flush_loop1]; rfl, ?_⟩
+  intro p ps g off hlen hcap hoff hpl
+  rw [DefaultWriter_Flush_loop1]
+  by_cases hol : off > p.len
+  · have h1 : ssliceFrom g.buf (off : Int) = .ok { g.buf with mem := g.buf.mem.drop off, len := g.buf.len - off } := by
+      unfold ssliceFrom
+      rw [sslice_ok _ _ _ (by omega) (by simp [slen]; omega) (by simp [slen, scap]; omega)]
+      simp [slen]
+    have h2 : ssliceFrom p (off : Int) = .panic "slice" := by
+      unfold ssliceFrom sslice
+      have c1 : ¬ (slen p < 0 ∨ slen p > scap p) := by simp [slen, scap]; omega
+      have c2 : ((off : Int) < 0 ∨ (off : Int) > slen p) := by right; simp [slen]; omega
+      simp [c1, c2]
+    simp [hol, h1, h2]
+  · obtain ⟨s1, s2, s3, s4⟩ := stitch_step g.buf p off hlen hcap hoff (by omega) hpl
+    have s4' : wrap .i64 ((copySl { g.buf with mem := g.buf.mem.drop off, len := g.buf.len - off }
+        { p with mem := p.mem.drop off, len := p.len - off }).2 + (off : Int))
+        = ((off + min (g.buf.len - off) (p.len - off) : Nat) : Int) := by
+      rw [Int.add_comm]; exact s4
+    simp [-Out.bind_ok, bind_ok_nr, hol, s1, s2, s3, s4, s4']))
+
 /-- the stitching loop of Flush is the model's `stitch` on the heap (panics included) -/
-theorem flush_loop (W : IoWriter WSink) (v : WView) (hvc : v.cap ≤ 2 ^ 45) (hvl : v.len ≤ v.cap) :
+theorem flush_loop (L : FlushLoopT) (hL : FlushStep L) (v : WView) (hvc : v.cap ≤ 2 ^ 45) (hvl : v.len ≤ v.cap) :
     ∀ (ps : List Sl) (mp : List (Nat × Nat)) (heap : Nat → Bytes) (g : S_DefaultWriter WSink) (off : Nat),
       ps.map (fun p => (p.len, p.mem)) = mp.map (fun ol => (ol.2, heap ol.1)) →
       g.buf = ⟨heap v.obj, v.len, true⟩ → (heap v.obj).length = v.cap → off ≤ v.len →
       (∀ ol ∈ mp, ol.1 ≠ v.obj ∧ ol.2 ≤ (heap ol.1).length) →
       match stitch v heap mp off with
       | .ok (heap1, off1) =>
-          DefaultWriter_Flush_loop1 W ps (off : Int) g = .ok ((off1 : Int), { g with buf := ⟨heap1 v.obj, v.len, true⟩ }) ∧
+          L ps g (off : Int) = .ok ({ g with buf := ⟨heap1 v.obj, v.len, true⟩ }, (off1 : Int)) ∧
           (heap1 v.obj).length = v.cap ∧ (∀ o, o ≠ v.obj → heap1 o = heap o)
-      | .panic s => DefaultWriter_Flush_loop1 W ps (off : Int) g = .panic s
+      | .panic s => L ps g (off : Int) = .panic s
       | _ => True := by
   intro ps
   induction ps with
@@ -562,7 +590,7 @@ theorem flush_loop (W : IoWriter WSink) (v : WView) (hvc : v.cap ≤ 2 ^ 45) (hv
     subst this
     simp only [stitch]
     refine ⟨?_, hhl, by simp⟩
-    simp [DefaultWriter_Flush_loop1, ← hgb]
+    rw [hL.1, ← hgb]
   | cons p ps ih =>
     intro mp heap g off hmap hgb hhl hoff hmp
     cases mp with
@@ -574,25 +602,16 @@ theorem flush_loop (W : IoWriter WSink) (v : WView) (hvc : v.cap ≤ 2 ^ 45) (hv
       obtain ⟨hne, hll⟩ := hmp (o, l) (by simp)
       simp only [] at hne hll hpl hpm
       have hoff' : ¬ off > v.len := by omega
+      have hstep := hL.2 p ps g off (by simp [hgb, hhl]; omega) (by simp [hgb, hhl]; omega) (by simp [hgb]; omega)
+        (by rw [hpl, hpm]; omega)
+      simp only [hgb, hpl, hpm] at hstep
       unfold stitch
       simp only [hoff', if_false]
       by_cases hol : off > l
       · -- `oldBuf[offset:]` panics
-        have h1 : ssliceFrom g.buf (off : Int) = .ok { g.buf with mem := g.buf.mem.drop off, len := g.buf.len - off } := by
-          unfold ssliceFrom
-          rw [sslice_ok _ _ _ (by omega) (by simp [slen, hgb]; omega) (by simp [slen, scap, hgb, hhl]; omega)]
-          simp [slen]
-        have h2 : ssliceFrom p (off : Int) = .panic "slice" := by
-          unfold ssliceFrom sslice
-          have c1 : ¬ (slen p < 0 ∨ slen p > scap p) := by simp [slen, scap, hpl, hpm]; omega
-          have c2 : ((off : Int) < 0 ∨ (off : Int) > slen p) := by right; simp [slen, hpl]; omega
-          simp [c1, c2]
-        rw [DefaultWriter_Flush_loop1]
-        simp [hol, h1, h2]
-      · simp only [hol, if_false]
-        obtain ⟨s1, s2, s3, s4⟩ := stitch_step g.buf p off (by simp [hgb, hhl]; omega) (by simp [hgb, hhl]; omega)
-          (by simp [hgb]; omega) (by rw [hpl]; omega) (by rw [hpl, hpm]; omega)
-        simp only [hgb, hpl, hpm] at s1 s2 s3 s4
+        simp only [hol, if_true] at hstep ⊢
+        exact hstep
+      · simp only [hol, if_false] at hstep ⊢
         generalize hk : min (v.len - off) (l - off) = k at *
         have hk1 : k ≤ v.len - off := by subst hk; exact Nat.min_le_left _ _
         have hk2 : k ≤ l - off := by subst hk; exact Nat.min_le_right _ _
@@ -614,11 +633,6 @@ theorem flush_loop (W : IoWriter WSink) (v : WView) (hvc : v.cap ≤ 2 ^ 45) (hv
             intro ol hol'
             have := hmp ol (by simp [hol'])
             rw [hwrite_other _ _ _ _ _ this.1]; exact this)
-        have hstep : DefaultWriter_Flush_loop1 W (p :: ps) (off : Int) g =
-            DefaultWriter_Flush_loop1 W ps ((off + k : Nat) : Int)
-              { g with buf := ⟨(heap v.obj).take off ++ ((heap o).drop off).take k ++ (heap v.obj).drop (off + k), v.len, true⟩ } := by
-          rw [DefaultWriter_Flush_loop1]
-          simp [-Out.bind_ok, bind_ok_nr, hgb, s1, s2, s3, s4]
         rw [hstep]
         generalize stitch v (hwrite heap v.obj off ((gslice (heap o) off l).take k)) mp (off + k) = res at hih ⊢
         cases res with
@@ -700,7 +714,7 @@ theorem DefaultWriter_Flush_sim (g : S_DefaultWriter WSink) (m : Wr) (hs : WSim 
       have hgb := hs.buf_some v hb
       have hok := hw.buf_ok v hb
       have hvc : v.cap ≤ 2 ^ 45 := by simpa [Wr.bufCap, hb] using hcap
-      have hl := flush_loop (sinkWriter m.disableCache) v hvc hok.len_le_cap (rangeSl g.pendingBuf) m.pending m.heap g 0
+      have hl := flush_loop flushRef flushRef_step v hvc hok.len_le_cap (rangeSl g.pendingBuf) m.pending m.heap g 0
         hs.pend hgb hok.heap_len (Nat.zero_le _) (fun ol hol => ⟨hok.pend_ne ol hol, hok.pend_len ol hol⟩)
       have hnn : Sl.isNil g.buf = false := by simp [hgb, Sl.isNil]
       have hbl : g.maxSizeStats.buckets.length = Facts.statsBucketNum := by
@@ -711,9 +725,15 @@ theorem DefaultWriter_Flush_sim (g : S_DefaultWriter WSink) (m : Wr) (hs : WSim 
         (by simp [Facts.statsBucketNum] at hidx2; omega)
       simp only []
       rcases stitch_ok_or_panic v m.pending m.heap 0 with ⟨⟨heap1, off1⟩, hst⟩ | ⟨s, hst⟩
-      · rw [hst] at hl ⊢
-        obtain ⟨l1, l2, l3⟩ := hl
-        simp only [Int.natCast_zero] at l1
+      · -- the stitching loop followed by the rest of Flush — whatever the generated loop function is called with
+        have hloop : ∀ (L : FlushLoopT) (K : S_DefaultWriter WSink × Int → GM (S_DefaultWriter WSink × Err)), FlushStep L →
+            (L (rangeSl g.pendingBuf) g 0).bind K = K ({ g with buf := ⟨heap1 v.obj, v.len, true⟩ }, (off1 : Int)) := by
+          intro L K hL
+          have h := flush_loop L hL v hvc hok.len_le_cap (rangeSl g.pendingBuf) m.pending m.heap g 0
+            hs.pend hgb hok.heap_len (Nat.zero_le _) (fun ol hol => ⟨hok.pend_ne ol hol, hok.pend_len ol hol⟩)
+          rw [hst] at h; simp only [Int.natCast_zero] at h; rw [h.1]; rfl
+        rw [hst] at hl ⊢
+        obtain ⟨_, l2, l3⟩ := hl
         have hdata : gslice (heap1 v.obj) 0 v.len = (heap1 v.obj).take v.len := by simp [gslice]
         have hpend1 : (rangeSl g.pendingBuf).map (fun p => (p.len, p.mem)) = m.pending.map (fun ol => (ol.2, heap1 ol.1)) := by
           rw [hs.pend]
@@ -723,35 +743,49 @@ theorem DefaultWriter_Flush_sim (g : S_DefaultWriter WSink) (m : Wr) (hs : WSim 
         simp only [Wr.sinkWrite, hdata]
         cases hdc : m.disableCache
         · -- a real sink: its k-th call may fail
-          rw [hdc] at l1
           simp only [Bool.false_eq_true, if_false]
           cases hf : m.sink.fail (m.sink.calls.length + 1) with
           | some e =>
             have hge' : errCon (some e) ≠ Err.nil := by cases e <;> simp [errCon]
             simp only []
             refine ⟨_, by
-              simp [-Out.bind_ok, bind_ok_nr, hge, hnn, l1]
-              simp [-Out.bind_ok, bind_ok_nr, hs.sink, ifaceGet, ioWrite, sinkWriter, Sl.data, hf, hge']; rfl, ?_⟩
+              simp [-Out.bind_ok, bind_ok_nr, hge, hnn]
+              rw [hloop]
+              rotate_left
+              · flush_step
+              simp [-Out.bind_ok, bind_ok_nr, hge, hs.sink, ifaceGet, ioWrite, sinkWriter, Sl.data, hf, hge']; rfl, ?_⟩
             exact ⟨by simp [hb], by intro v' hv'; simp [hb] at hv'; subst hv'; rfl, hpend1, rfl, by simpa [hdc] using hs.dc,
               hs.stats, hs.stats_nonneg, hs.idx, rfl⟩
           | none =>
             simp only []
             refine ⟨{ g with wd := some ⟨m.sink.calls ++ [((heap1 v.obj).take v.len, none)], m.sink.fail⟩, buf := Sl.nil, pendingBuf := none, maxSizeStats := ⟨g.maxSizeStats.buckets.set g.maxSizeStats.bucketIdx.toNat (v.cap : Int), ((g.maxSizeStats.bucketIdx.toNat + 1) % Facts.statsBucketNum : Nat)⟩ }, by
-              simp [-Out.bind_ok, bind_ok_nr, hge, hnn, l1]
-              simp [-Out.bind_ok, bind_ok_nr, hs.sink, ifaceGet, ioWrite, sinkWriter, Sl.data, hf, errCon, scap, l2, eU,
+              simp [-Out.bind_ok, bind_ok_nr, hge, hnn]
+              rw [hloop]
+              rotate_left
+              · flush_step
+              simp [-Out.bind_ok, bind_ok_nr, hge, hs.sink, ifaceGet, ioWrite, sinkWriter, Sl.data, hf, errCon, scap, l2, eU,
                 flush_free_loop], ?_⟩
             refine flush_done_wsim g m _ v.cap _ hs hw.stats_idx he ?_ ?_ ?_ ?_ ?_ ?_ ?_ <;> first | rfl | exact hdc.symm
         · -- a BytesWriter: the fake io.Writer records the slice and never fails
-          rw [hdc] at l1
           simp only [if_true]
           refine ⟨{ g with wd := some ⟨m.sink.calls ++ [((heap1 v.obj).take v.len, none)], m.sink.fail⟩, buf := Sl.nil, pendingBuf := none, maxSizeStats := ⟨g.maxSizeStats.buckets.set g.maxSizeStats.bucketIdx.toNat (v.cap : Int), ((g.maxSizeStats.bucketIdx.toNat + 1) % Facts.statsBucketNum : Nat)⟩ }, by
-            simp [-Out.bind_ok, bind_ok_nr, hge, hnn, l1]
-            simp [-Out.bind_ok, bind_ok_nr, hs.sink, ifaceGet, ioWrite, sinkWriter, Sl.data, errCon, scap, l2, eU,
+            simp [-Out.bind_ok, bind_ok_nr, hge, hnn]
+            rw [hloop]
+            rotate_left
+            · flush_step
+            simp [-Out.bind_ok, bind_ok_nr, hge, hs.sink, ifaceGet, ioWrite, sinkWriter, Sl.data, errCon, scap, l2, eU,
               flush_free_loop], ?_⟩
           refine flush_done_wsim g m _ v.cap _ hs hw.stats_idx he ?_ ?_ ?_ ?_ ?_ ?_ ?_ <;> first | rfl | exact hdc.symm
-      · rw [hst] at hl ⊢
-        simp only [Int.natCast_zero] at hl
-        simp [-Out.bind_ok, bind_ok_nr, hge, hnn, hl]
+      · have hloop : ∀ (L : FlushLoopT) (K : S_DefaultWriter WSink × Int → GM (S_DefaultWriter WSink × Err)), FlushStep L →
+            (L (rangeSl g.pendingBuf) g 0).bind K = .panic s := by
+          intro L K hL
+          have h := flush_loop L hL v hvc hok.len_le_cap (rangeSl g.pendingBuf) m.pending m.heap g 0
+            hs.pend hgb hok.heap_len (Nat.zero_le _) (fun ol hol => ⟨hok.pend_ne ol hol, hok.pend_len ol hol⟩)
+          rw [hst] at h; simp only [Int.natCast_zero] at h; rw [h]; rfl
+        rw [hst]
+        simp [-Out.bind_ok, bind_ok_nr, hge, hnn]
+        rw [hloop]
+        flush_step
 
 /-- `NewDefaultWriter(wd)` is the model's `Wr.newDefault` -/
 theorem NewDefaultWriter_eq (fail : Nat → Option RErr) :
